@@ -14,8 +14,17 @@ def handle (c obs : String) : String × Bool × String :=
     -- operators outside the model: the property itself is evaluated on the observation of the real code
     match parseObs obs with
     | some os =>
-      let bad := os.filter (fun o => !(obsBalanced o && o.pre == 0 && o.leak == 0))
-      (obs, bad.isEmpty, if bad.isEmpty then "" else "spec-only: unbalanced open/close, effects before the terminal, or a file descriptor left open")
+      -- ids 200..299 are CLOSE-ONLY elements (`lcc`, `srcc`): they log only their Close; they are owed exactly one Close
+      -- per attempted Open of their companion probe (id + 1000), which sits right after them in the lifecycle list
+      let closeOnlyOk := fun (o : ObsRun) => o.events.all (fun e =>
+        if 1200 ≤ e.1 && e.1 < 1300 then
+          let k := (e.2.toList.filter (fun c => c == 'O' || c == 'o')).length
+          let cs := ((o.events.lookup (e.1 - 1000)).getD "").toList
+          cs.all (· == 'C') && cs.length == k
+        else true)
+      let plain := fun (o : ObsRun) => { o with events := o.events.filter (fun e => !(200 ≤ e.1 && e.1 < 300)) }
+      let bad := os.filter (fun o => !(obsBalanced (plain o) && closeOnlyOk o && o.pre == 0 && o.leak == 0))
+      (obs, bad.isEmpty, if bad.isEmpty then "" else "spec-only: unbalanced open/close (or a close-only element not closed exactly once), effects before the terminal, or a file descriptor left open")
     | none => (obs, false, "unparsable observation")
   else
   match parseCase c with
